@@ -697,3 +697,68 @@ def logging_trace(rng, nops=14, tmpdir=None):
         if tmpdir is None:
             import shutil
             shutil.rmtree(tmp, ignore_errors=True)
+
+
+# ---- EngineBuilder life-cycle across several builds (EngineBuilderLife.tla) -------------------------------------------
+def builder_life_trace(rng, nops=10, ops=None):
+    import liesel.goose as gs
+    from liesel.goose.epoch import EpochConfig, EpochType
+
+    from .probes import NullKernel
+    models = [gs.DictInterface(lambda s, c=c: -0.5 * sum(jnp.sum((s[k] - c) ** 2) for k in ("p1", "p2", "p3"))) for c in (0.0, 5.0)]
+    b = gs.EngineBuilder(seed=rng.randint(0, 99), num_chains=2)
+    b.show_progress = False
+    kernels = []
+
+    def mid(m):
+        for i, x in enumerate(models, start=1):
+            if m is x:
+                return i
+        return 0
+
+    def obs():
+        return [{"bound": mid(k.model) if k.has_model() else 0, "ident": k.identifier} for k in kernels]
+
+    ev = []
+    todo = list(ops) if ops else None
+    for _ in range(len(todo) if todo else nops):
+        if todo:
+            o = todo.pop(0)
+        else:
+            r = rng.random()
+            o = (("set_model", rng.randint(1, 2)) if r < 0.25 else
+                 ("add_kernel", rng.choice([0, 0, 0, 1, 2]), rng.random() < 0.3) if r < 0.45 and len(kernels) < 3 else
+                 ("set_initial_values",) if r < 0.6 else ("set_epochs",) if r < 0.72 else ("build",))
+        e = {"ev": o[0], "reason": "none"}
+        if o[0] == "set_model":
+            b.set_model(models[o[1] - 1])
+            e["m"] = o[1]
+        elif o[0] == "add_kernel":
+            k = NullKernel([f"p{len(kernels) + 1}"])
+            if o[1]:
+                k.set_model(models[o[1] - 1])
+            if o[2]:
+                k.identifier = f"z{len(kernels) + 1}"
+            kernels.append(k)
+            b.add_kernel(k)
+            e.update({"u": o[1], "named": bool(o[2])})
+        elif o[0] == "set_initial_values":
+            b.set_initial_values({f"p{i}": jnp.zeros((), jnp.float32) for i in (1, 2, 3)})
+        elif o[0] == "set_epochs":
+            b.set_epochs([EpochConfig(EpochType.INITIAL_VALUES, 1, 1, None), EpochConfig(EpochType.POSTERIOR, 2, 1, None)])
+        else:
+            if sum(1 for x in ev if x["ev"] == "build" and x["reason"] == "none") >= 3:
+                continue
+            try:
+                eng = b.build()
+                e["engine_model"] = mid(eng._model)
+                e["engine_kmodels"] = [mid(k.model) for k in eng._kernel_sequence.get_kernels()]
+            except AttributeError as ex:
+                e["reason"] = "no_epochs" if "_epochs" in str(ex) else "other:" + str(ex)[:80]
+            except RuntimeError as ex:
+                msg = str(ex)
+                e["reason"] = ("no_model" if "Model interface must be set" in msg else
+                               "no_initial_values" if "Model state must be set" in msg else "other:" + msg[:80])
+        e["kernels"] = obs()
+        ev.append(e)
+    return {"hdr": {"kind": "builder_life"}, "ev": ev}
